@@ -81,15 +81,16 @@ class C20(Prop):
         geoms = [self._geom(rng, nt, nf, t0, f0, tstep, fstep) for _ in range(n)]
         r = rng.random()
         if r < 0.35:
-            values = {"mode": "scalar", "v": rng.choice([1, 2, 5])}
+            values = {"mode": "scalar", "v": rng.choice([1, 2, 5, 0, -2])}
         elif r < 0.85:
-            values = {"mode": rng.choice(["list", "tuple"]), "v": [rng.choice([1, 2, 3, 4, 7]) for _ in range(n)]}
+            # class-index style values: 0 and negative values are legitimate and must not be confused with the fill value
+            values = {"mode": rng.choice(["list", "tuple"]), "v": [rng.choice([1, 2, 3, 4, 7, 0, 0, -1]) for _ in range(n)]}
         else:
             values = {"mode": "list", "v": [rng.choice([1, 2, 3]) for _ in range(n + rng.choice([1, -1]) if n + 0 > 0 else 1)]}
         return {
             "kind": "raster", "nt": nt, "nf": nf, "tstep": tstep, "fstep": fstep, "t0": t0, "f0": f0,
             "order": rng.choice(["ft", "tf"]), "channel": rng.random() < 0.2, "geoms": geoms, "values": values,
-            "fill": rng.choice([0, 0, -1]), "dtype": rng.choice(["float32", "float32", "int16", "float64"]),
+            "fill": rng.choice([0, 0, -1, 9]), "dtype": rng.choice(["float32", "float32", "int16", "float64"]),
             "all_touched": rng.random() < 0.25, "content_seed": rng.randrange(1000),
         }
 
